@@ -281,6 +281,9 @@ class J1939_21:
         pgn = data[5] | (data[6] << 8) | (data[7] << 16)
 
         src_address = mid.source_address
+        if src_address == ParameterGroupNumber.Address.GLOBAL:
+            # the global address is no legal source address (and, swapped, it would match the key of our own broadcast sessions)
+            return
 
         if control_byte == self.ConnectionMode.RTS:
             message_size = data[1] | (data[2] << 8)
